@@ -294,6 +294,18 @@ class SymReal(SymFloat):
     def __pos__(self):
         return self
 
+    def __round__(self, n=None):
+        """round(x, n): contract model - a value within half a unit of the last kept decimal place of x."""
+        if n is None:
+            raise Unsupported("round(SymReal) to an int")
+        c = core._CTX
+        c.fresh_id += 1
+        y = z3.Real("round#%d" % c.fresh_id)
+        c._declare("round#%d" % c.fresh_id, y, "real", None, None)
+        half = Fraction(1, 2 * 10 ** n)
+        c.assume(SymBool(z3.And(y - self.e <= rval(half), self.e - y <= rval(half))))
+        return SymReal(y)
+
     def __abs__(self):
         return SymReal(z3.If(self.e < 0, -self.e, self.e))
 
